@@ -134,6 +134,72 @@ type tEmbedTaggedExported struct {
 	*tEmbBase     `json:"ptr"`
 }
 
+type tEmbExtra struct {
+	By string `json:"by"`
+	At int    `json:"at,omitempty"`
+}
+
+// a skipped (named / non-struct) anonymous field followed by a plain embedded struct
+type tEmbedTaggedThenPlain struct {
+	tEmbBase `json:"base"`
+	tEmbExtra
+	Title string `json:"title"`
+}
+
+type tEmbedScalarThenPlain struct {
+	EmbInt
+	tEmbExtra
+}
+
+// two levels of embedding, below a named anonymous field and promoted
+type tEmbMid struct {
+	tEmbExtra
+	W int
+}
+
+type tEmbedDeepTagged struct {
+	tEmbMid `json:"mid"`
+	Y       int
+}
+
+type tEmbedDeepPlain struct {
+	tEmbMid
+	*tEmbBase
+	Q bool `json:"q,omitempty"`
+}
+
+type tEmbedPlainThenTagged struct {
+	tEmbExtra
+	TExportedBase `json:"nested"`
+	tEmbBase
+}
+
+// JSON-name conflicts that Go's own field shadowing does not resolve (different Go names)
+type tNameShallowFirst struct {
+	N int `json:"name"` // shallower than tEmbBase.Name: wins, whatever the order
+	tEmbBase
+}
+
+type tNameShallowLast struct {
+	tEmbBase
+	Label bool `json:"name"`
+}
+
+type tNameTaggedWins struct {
+	A int `json:"B"` // same depth as B; only A is tagged: A is field "B", B is dropped
+	B string
+}
+
+type tNameDeepConflict struct {
+	tEmbExtra          // by, at
+	tEmbBy2            // by (same depth, both tagged): neither is emitted
+	Q         int `json:"q"`
+}
+
+type tEmbBy2 struct {
+	By2 int `json:"by"`
+}
+
 type tStd struct {
 	T  time.Time
 	L  slog.Level
@@ -203,6 +269,8 @@ func TypeFamily() []TypeCase {
 		tc[tBasicInts]("tBasicInts"), tc[tBasicUints]("tBasicUints"), tc[tBasicRest]("tBasicRest"), tc[tTags]("tTags"),
 		tc[tPointersA]("tPointersA"), tc[tPointersB]("tPointersB"), tc[tContainersA]("tContainersA"), tc[tContainersB]("tContainersB"), tc[tContainersC]("tContainersC"),
 		tc[tEmbedValue]("tEmbedValue"), tc[tEmbedPtr]("tEmbedPtr"), tc[tEmbedShadow]("tEmbedShadow"), tc[tEmbedAmbiguous]("tEmbedAmbiguous"), tc[tEmbedTagged]("tEmbedTagged"), tc[tEmbedScalar]("tEmbedScalar"), tc[tEmbedTaggedExported]("tEmbedTaggedExported"),
+		tc[tEmbedTaggedThenPlain]("tEmbedTaggedThenPlain"), tc[tEmbedScalarThenPlain]("tEmbedScalarThenPlain"), tc[tEmbedDeepTagged]("tEmbedDeepTagged"), tc[tEmbedDeepPlain]("tEmbedDeepPlain"), tc[tEmbedPlainThenTagged]("tEmbedPlainThenTagged"),
+		tc[tNameShallowFirst]("tNameShallowFirst"), tc[tNameShallowLast]("tNameShallowLast"), tc[tNameTaggedWins]("tNameTaggedWins"), tc[tNameDeepConflict]("tNameDeepConflict"),
 		tc[tNamed]("tNamed"), tc[tNamedInt]("tNamedInt"), tc[tNamedSlice]("tNamedSlice"), tc[tDup]("tDup"), tc[tWeirdTags]("tWeirdTags"),
 	}
 	std := tc[tStd]("tStd")
